@@ -42,8 +42,68 @@ SUBPROC = [{"hashseed": "0", "waitq": "", "opt": False}, {"hashseed": "1", "wait
            {"hashseed": "4242", "waitq": "SD", "opt": False}, {"hashseed": "0", "waitq": "", "opt": True}]
 
 
+def wake_order_program(rng):
+    """3-6 activities subscribe to one notification (await / until-block / own comparison of one
+    tracked value); some of them leave before it fires; the rest must resume in the order in
+    which they subscribed."""
+    kind = rng.choice(["await-flag", "until-flag", "await-shared-and", "own-comparison"])
+    n = rng.randint(3, 6)
+    resources = {"F": {"kind": "flag"}, "G": {"kind": "flag", "init": True},
+                 "X": {"kind": "tracked", "init": 0}}
+    if kind == "await-flag":
+        expr = {"k": "flag", "n": "F"}
+    elif kind == "until-flag":
+        expr = {"k": "flag", "n": "F"}
+    elif kind == "await-shared-and":
+        expr = {"k": "shared", "n": "S", "x": {"k": "and", "xs": [{"k": "flag", "n": "F"},
+                                                                 {"k": "flag", "n": "G"}]}}
+    else:
+        expr = {"k": "cmp", "l": "X", "op": ">=", "r": 1}
+    actors = []
+    for i in range(n):
+        ops = [{"op": "postpone", "k": i + 1}]          # subscribe one after the other
+        if kind == "until-flag":
+            ops.append({"op": "scope", "label": "U%d" % i, "until": expr, "children": [],
+                        "body": [{"op": "now", "tag": "subscribed"}, {"op": "eternity"}]})
+        else:
+            ops.append({"op": "wait", "id": "w%d" % i, "x": expr})
+        ops.append({"op": "now", "tag": "resumed"})
+        actors.append({"name": "q%d" % i, "ops": ops})
+    leavers = rng.sample(range(n), rng.randint(0, n - 2))
+    killer = [{"op": "sleep", "d": 1}]
+    for i in leavers:
+        killer.append({"op": "cancel", "task": "q%d" % i, "token": ["leave"]})
+        if rng.random() < 0.5:
+            killer.append({"op": "postpone", "k": 1})
+    killer.append({"op": "sleep", "d": 1})
+    if kind == "own-comparison":
+        killer.append({"op": "tr_set", "on": "X", "to": 2})
+    else:
+        killer.append({"op": "flag_set", "on": "F"})
+    actors.append({"name": "killer", "ops": killer})
+    return {"scenario": {"resources": resources, "actors": actors}, "plan": [], "config": {},
+            "engine": "world", "family": "wake-order", "leavers": ["q%d" % i for i in leavers]}
+
+
+def check_wake_order(sub):
+    rec, cleanup = union.execute(configured(sub, {}))
+    try:
+        resumed = [ev[3] for ev in rec.trace if ev[4] == "now" and ev[5] == "resumed"]
+        expected = [a["name"] for a in sub["scenario"]["actors"]
+                    if a["name"].startswith("q") and a["name"] not in sub["leavers"]]
+        if rec.outcome != ("ok",):
+            return "run() ended with %r" % (rec.outcome,)
+        if resumed != expected:
+            return "waiters of one notification subscribed in order %r (after %r left) but " \
+                   "resumed in order %r" % (expected, sub["leavers"], resumed)
+        return None
+    finally:
+        cleanup(rec)
+
+
 def generate(rng, tier):
     batch = [union.generate(rng) for _ in range(BATCH)]
+    batch.extend(wake_order_program(rng) for _ in range(5))
     for sub in batch:
         if rng.random() < 0.5:
             sub["gc_ticks"] = sorted(rng.randint(1, 80) for _ in range(rng.randint(1, 3)))
@@ -130,6 +190,12 @@ def run_case(case):
     ticks = 0
     sigs = []
     for index, sub in enumerate(batch):
+        if sub.get("family") == "wake-order":
+            problem = check_wake_order(sub)
+            stats["probe.wake-order-programs"] = stats.get("probe.wake-order-programs", 0) + 1
+            if problem and len(violations) < 5:
+                violations.append({"rule": "C02/wake-order", "msg": "program %d: %s"
+                                   % (index, problem), "sub": index})
         results = [observable(configured(sub, config)) for config in INPROC]
         ticks += results[0]["ticks"]
         reference.append(results[0]["digest"])
